@@ -156,9 +156,87 @@ func (r *c38Req) site() string { return r.transport + "-" + r.kind }
 
 var c38TraceVariants = []string{"valid", "valid", "uppercase", "dashed-uuid", "short-trace", "long-span", "only-trace", "only-span", "empty", "non-hex", "panic"}
 
+// c38AsyncLines is the "one JSON line per record" clause under asynchronous
+// emission: several dispatches end concurrently on one hook whose records go
+// through the real async emitter, a closer retires the emitter while they do
+// (from then on records are written synchronously), and the log file takes
+// every write in two pieces. Whoever writes, no line may be torn.
+func c38AsyncLines(e *simkern.Env) {
+	tp := e.Tape
+	nEmit := 2 + tp.Draw(2)
+	nRec := 4 + tp.Draw(10)
+	queue := 1 + tp.Draw(4)
+	closeAfter := tp.Draw(nRec)
+	e.Knob("mode", "async-lines")
+	e.Knob("emitters", nEmit)
+	e.Knob("records", nRec)
+	e.Knob("queue", queue)
+	left := e.Bubble(func() {
+		sim := simkern.NewSim(tp, e.Trace)
+		defer sim.Close()
+		var lines []*alogw.Line
+		w := alogw.NewWriter(sim, "async", &lines)
+		w.Pieces = true
+		hook := vgirpc.NewAccessLogHook(w, "")
+		if err := hook.SetAsync(queue); err != nil {
+			e.Harness("SetAsync(%d): %v", queue, err)
+			return
+		}
+		done := 0
+		for i := 0; i < nEmit; i++ {
+			i := i
+			sim.Spawn(fmt.Sprintf("emitter%d", i), func() {
+				for r := i; r < nRec; r += nEmit {
+					info := vgirpc.DispatchInfo{Method: fmt.Sprintf("m%d", r), MethodType: vgirpc.DispatchMethodUnary, ServerID: "a",
+						Protocol: "A", ProtocolHash: strings.Repeat("cd", 32), RequestID: fmt.Sprintf("rid-%d", r)}
+					sim.Y("emit.before")
+					ctx, tok := hook.OnDispatchStart(context.Background(), info)
+					hook.OnDispatchEnd(ctx, tok, info, nil, nil)
+					done++
+				}
+			})
+		}
+		sim.Spawn("closer", func() {
+			sim.Yield("closer.wait", func() bool { return done >= closeAfter })
+			sim.Fault("emitter-retired-under-traffic")
+			_ = hook.Close()
+		})
+		reason, _ := sim.Run(simkern.RunOpts{
+			MaxSteps: 4000 + 400*nRec,
+			Done:     sim.RootsDone,
+			Extra: func() []simkern.Action {
+				if w.Stalled {
+					return []simkern.Action{{Name: "unstall log", Weight: 4, Do: func() { w.Stalled = false }}}
+				}
+				return []simkern.Action{{Name: "stall log", Weight: 1, Do: func() { sim.Fault("writer-stall"); w.Stalled = true }}}
+			},
+		})
+		w.Stalled = false
+		e.Conclude(sim, reason, false)
+		for _, l := range lines {
+			if l.Bad != "" {
+				e.Violate("not-one-json-object", "async-lines", "with asynchronous emission and a Close under traffic, line %d of the log is not exactly one JSON object (%s): %s", l.Seq, l.Bad, alogw.Short(l.Raw, 200))
+				break
+			}
+		}
+		if p := w.Pending(); p != "" && !e.Violated() {
+			e.Violate("not-one-json-object", "async-lines", "the log ends in an unterminated fragment: %s", alogw.Short(p, 200))
+		}
+		e.Res.Nontrivial = len(lines) > 0
+		e.Res.Sample = []string{fmt.Sprintf("async lines: %d emitters, %d records, queue %d, close after %d -> %d lines", nEmit, nRec, queue, closeAfter, len(lines))}
+	})
+	if left != "" && !e.Violated() {
+		e.Harness("bubble: %s", left)
+	}
+}
+
 // C38 — access-log records are schema-valid and describe the call.
 func C38(e *simkern.Env) {
 	tp := e.Tape
+	if tp.Bool(1, 6) {
+		c38AsyncLines(e)
+		return
+	}
 	debug := tp.Bool(1, 2)
 	nInst := 1 + tp.Draw(2)
 	hooklessNode := false
@@ -443,6 +521,12 @@ func C38(e *simkern.Env) {
 				body = c38Zstd.EncodeAll(body, nil)
 				hdr["Content-Encoding"] = "zstd"
 				sim.Probe("request-compressed")
+			}
+			if rq.kind == "unary" && tp.Bool(1, 6) {
+				// the peer goes away while the response body is being written:
+				// what the record must report is what did cross the wire
+				req.HangUpAfter = 1 + tp.Draw(700)
+				sim.Fault("peer-hangup-mid-response")
 			}
 			req.Body = body
 			rq.sent = len(body)
@@ -925,12 +1009,12 @@ func init() {
 	Registry["C38"] = &Info{
 		Run:   C38,
 		Level: "exploration",
-		Rule:  "each run draws debug on/off, 1-2 HTTP instances (call-cache default/0/1) sharing a token key, producer batch limit 1-2, response compression on/off, a trace provider (none / valid / per-call plan of valid, uppercase, dashed, wrong-length, half-pair, non-hex, panicking / always panicking), a claim redactor (default / custom replace / custom drop / none / panicking / panicking for identities with a trip claim), 1-3 authenticated identities with generated claim sets (documented sensitive names and plain names; string, object and list values carrying unique markers), 1-2 HTTP client tasks and optionally a pipe session; clients issue unary calls (ok/error/panic/malformed parameters), stream inits (5 methods incl. dynamic and header-bearing, some failing) and continuations/cancels routed to any instance, with per-request choice of X-Request-ID, batch request id, Accept-Encoding / X-VGI-Accept-Encoding (zstd, gzip) and request compression; the scheduler interleaves the clients at woven points, advances the clock and restarts instances; every log line is attributed to the request in flight of the task that wrote it and judged; distinct = distinct schedule fingerprint; non-trivial = at least one line judged",
+		Rule:  "each run draws debug on/off, 1-2 HTTP instances (call-cache default/0/1) sharing a token key, producer batch limit 1-2, response compression on/off, a trace provider (none / valid / per-call plan of valid, uppercase, dashed, wrong-length, half-pair, non-hex, panicking / always panicking), a claim redactor (default / custom replace / custom drop / none / panicking / panicking for identities with a trip claim), 1-3 authenticated identities with generated claim sets (documented sensitive names and plain names; string, object and list values carrying unique markers), 1-2 HTTP client tasks and optionally a pipe session; clients issue unary calls (ok/error/panic/malformed parameters), stream inits (5 methods incl. dynamic and header-bearing, some failing) and continuations/cancels routed to any instance, with per-request choice of X-Request-ID, batch request id, Accept-Encoding / X-VGI-Accept-Encoding (zstd, gzip) and request compression; the scheduler interleaves the clients at woven points, advances the clock and restarts instances; every log line is attributed to the request in flight of the task that wrote it and judged; distinct = distinct schedule fingerprint; non-trivial = at least one line judged; one unary request in six is cut by the peer hanging up mid-body (response_bytes must equal what did cross the wire); one run in six is the async-lines mode instead: 2-3 tasks end dispatches concurrently on one hook with the real async emitter (queue 1-4) while a closer retires the emitter, the log file takes every write in two pieces and stalls at times, and every line must still be exactly one JSON object",
 		Real:  []string{"vgirpc.AccessLogHook (record assembly, redaction, trace correlation, egress recorder flush)", "vgirpc.HttpServer.ServeHTTP incl. response compression and request decompression", "vgirpc.Server.ServeWithContext on a simulated pipe", "stream tokens / call-state cache"},
 		Stub:  []string{"HTTP transport (direct ServeHTTP call, httptest recorder)", "protocol client (arrow-go IPC)", "scripted handlers and stream states", "authenticator, trace provider, claim redactor (harness callbacks)", "log files (harness io.Writer)"},
 		Quick: 1000, Thorough: 40000,
 		Warm:       warmAlog,
-		FaultKinds: []string{"clock-advance", "instance-restart", "trace-malformed", "trace-provider-panic", "redactor-panic"},
+		FaultKinds: []string{"clock-advance", "instance-restart", "trace-malformed", "trace-provider-panic", "redactor-panic", "peer-hangup-mid-response", "emitter-retired-under-traffic", "writer-stall"},
 		Assumptions: []string{
 			"the access-log JSON schema lives in the Python repository; 'required fields' is limited to timestamp (ISO-8601 string), method, method_type, status, 64-hex protocol_hash, non-negative duration_ms, server_id (string), authenticated (boolean) and, over HTTP, a non-empty request_id string",
 			"method and method_type are compared with the call the harness issued (needed to know which records are stream records); status is only checked to be ok|error, not compared with the outcome",
